@@ -154,10 +154,22 @@ def cases(draw, tier="quick"):
     if draw(st.sampled_from([0] * 11 + [1])):
         nm = draw(st.sampled_from([b"BZh91AY&notes", b"BZhou.txt", b"\x1f\x8b\x08.bin", b"\xfd7zXZ", b"\x28\xb5\x2f\xfdz"]))
         ar["entries"].insert(0, dict(name=nm, type="file", mode=0o644, uid=0, gid=0, mtime=5, xattrs={}, data=b"v7 member\n" * draw(st.integers(0, 60)),
-                                     enc=dict(fmt="v7", num="octal", ostyle=0)))
+                                     enc=dict(fmt=draw(st.sampled_from(["v7", "v7", "gnu", "ustar"])), num="octal", ostyle=0)))
         ar["global_pax"] = False
-    return dict(archive=ar, codec=codec, level=level, splits=splits, trailing=trailing, chunk=chunk, damage=damage, opts=o, s2t_codec=s2t_codec, tailwin=tailwin,
+    # options that make tar2sqfs pass over members without reading their data (a stream that ends inside such a member is as
+    # incomplete as any other)
+    skip = draw(st.sampled_from([None, None, None, None, "E", "r"]))
+    if len(splits) >= 1 and (skip or draw(st.booleans())):
+        # the stream ends cleanly after one of its members, wherever in the archive that is
+        damage = damage + [("truncb", draw(st.floats(0, 1)), 0)]
+    return dict(archive=ar, codec=codec, level=level, splits=splits, trailing=trailing, chunk=chunk, damage=damage, opts=o, s2t_codec=s2t_codec, tailwin=tailwin, skip=skip,
                 empties=empties, short_reads=short_reads, s2t_pad=s2t_pad, s2t_mult=draw(st.sampled_from([1, 1, 2])), s2t_kind=draw(st.sampled_from(["rand", "text"])))
+
+
+def t2s_args(case, out):
+    extra = {"E": ["-E", "*"], "r": ["-r", "no-such-prefix-zz"]}.get(case.get("skip"), [])
+    a = c04.t2s_cmd(case["opts"], out)
+    return a[:-1] + extra + [out]
 
 
 def feed(cmd, data, chunk, timeout=40, env=None):
@@ -233,13 +245,13 @@ def check_case(case, opts):
     t2s = vcommon.tool("asan", "tar2sqfs")
     with Scratch("c15") as sc:
         ref = os.path.join(sc, "ref.sqfs")
-        r0 = c04.run_t2s(plain, o, ref)
-        v7magic = bool(ents) and ents[0].get("enc", {}).get("fmt") == "v7" and ents[0]["name"][:3] in (b"BZh", b"\x1f\x8b\x08", b"\xfd7z", b"\x28\xb5\x2f")
+        r0 = vcommon.run([t2s] + t2s_args(case, ref), stdin=plain, timeout=60)
+        v7magic = bool(ents) and ents[0]["name"][:3] in (b"BZh", b"\x1f\x8b\x08", b"\xfd7z", b"\x28\xb5\x2f")
         if v7magic:
-            classes.append("v7_first_name_looks_like_a_compressor_magic")
+            classes.append("%s_first_name_looks_like_a_compressor_magic" % ents[0].get("enc", {}).get("fmt", "ustar"))
         if (r0.rc != 0 and not r0.timeout and not r0.sanitizer()) and v7magic:
             # transparency in the other direction: the same archive wrapped must then be refused as well
-            rw = c04.run_t2s(compress(codec, plain, case["level"]), o, os.path.join(sc, "w.sqfs"))
+            rw = vcommon.run([t2s] + t2s_args(case, os.path.join(sc, "w.sqfs")), stdin=compress(codec, plain, case["level"]), timeout=60)
             if rw.rc == 0:
                 raise Violation("the plain archive is refused (%s) but the same archive wrapped in %s is converted" % (r0.err[-160:].decode(errors="replace").strip(), codec),
                                 None, sig="plain-refused-wrapped-accepted")
@@ -286,7 +298,7 @@ def check_case(case, opts):
         if case.get("short_reads") and opts.get("io_shim"):
             senv = dict(VERIF_IO_MODE="short", VERIF_IO_SEED=str(case["short_reads"]), LD_PRELOAD=opts["io_shim"])
             classes.append("short_reads")
-        r = feed([t2s] + c04.t2s_cmd(o, out), wire, case["chunk"], env=senv)
+        r = feed([t2s] + t2s_args(case, out), wire, case["chunk"], env=senv)
         if r.timeout:
             raise Violation("tar2sqfs hangs on %s input (%s trailing, %d members)" % (codec, tr, len(parts)), None, sig="hang-" + ("trailing" if tr != "none" else "valid"))
         if r.sanitizer():
@@ -307,6 +319,12 @@ def check_case(case, opts):
         nd = 0
         for kind, frac, val in case["damage"]:
             pos = min(len(comp) - 1, int(frac * len(comp)))
+            if kind == "truncb":
+                lens = [len(compress(codec, p_, case["level"])) for p_ in parts]
+                if len(lens) < 2:
+                    continue
+                pos = sum(lens[:1 + int(frac * (len(lens) - 1)) % (len(lens) - 1)])
+                kind = "trunc"
             if kind == "truncm":
                 # a cut a few bytes into a later member: the decoder has finished whole members before it
                 lens = [len(compress(codec, p_, case["level"])) for p_ in parts]
@@ -320,11 +338,21 @@ def check_case(case, opts):
                 if pos == 0:
                     continue
                 # a cut exactly between two members is a shorter, valid stream (legitimate when it is also an entry boundary)
-                ends, acc = set(), 0
+                ends, acc, pacc = {}, 0, 0
                 for p_ in parts:
                     acc += len(compress(codec, p_, case["level"]))
-                    ends.add(acc)
+                    pacc += len(p_)
+                    ends[acc] = pacc
                 legit_boundary = pos in ends
+                inside_member = False
+                if legit_boundary:
+                    # ... unless the plain bytes delivered so far end inside a tar member (header, extension record or data): then the
+                    # archive is incomplete however cleanly the compressed stream ends
+                    import c13
+                    mem = c13._members(plain)
+                    inside_member = bool(mem) and any(ms < ends[pos] < dend for ms, _, _, dend in mem)
+                    if inside_member:
+                        classes.append("member_boundary_inside_tar_member" + ("_skipped" if case.get("skip") else ""))
             elif kind == "flip":
                 bad = comp[:pos] + bytes([comp[pos] ^ (val or 1)]) + comp[pos + 1:]
                 legit_boundary = False
@@ -339,11 +367,14 @@ def check_case(case, opts):
                 continue
             outb = os.path.join(sc, "bad%d.sqfs" % nd)
             nd += 1
-            rb = feed([t2s] + c04.t2s_cmd(o, outb), bad, 0)
+            rb = feed([t2s] + t2s_args(case, outb), bad, 0)
             if rb.timeout:
                 raise Violation("tar2sqfs hangs on a damaged %s stream (%s at %d of %d)" % (codec, kind, pos, len(comp)), None, sig="hang-damaged")
             if rb.sanitizer():
                 raise Violation("tar2sqfs on damaged %s stream: %s" % (codec, rb.sanitizer()), rb.err.decode(errors="replace")[-2000:], sig="sanitizer")
+            if rb.rc == 0 and kind == "trunc" and legit_boundary and inside_member:
+                raise Violation("%s stream without its later members, ending inside a tar member (%d of %d plain bytes)%s, was accepted with exit 0" % (
+                    codec, ends[pos], len(plain), " which tar2sqfs skips" if case.get("skip") else ""), None, sig="truncated-accepted")
             if rb.rc == 0 and kind == "trunc" and not legit_boundary:
                 # "truncated compressed input is reported as an error": a proper prefix that the reference decompressor refuses as
                 # incomplete must not be accepted, even if everything that was lost is zero padding behind the end-of-archive marker
